@@ -291,7 +291,7 @@ func runC09(p *core.Prog, r *core.Report) {
 		r.Check(core.ErrorTested(apply), "C09.R4", "RunModule/replay-error", "the error of the replay is tested", "applyCachedOutput result unused", p.Pos(apply.Pos()))
 		// the returned bytes on the cached store branch are re-marshalled deltas
 		remarsh := false
-		core.Instrs(fn, func(x ssa.Instruction) {
+		core.InstrsDeep(fn, func(x ssa.Instruction) { // in RunModule or in the helper that builds the cached output
 			c, ok := x.(*ssa.Call)
 			if !ok {
 				return
@@ -313,7 +313,7 @@ func runC09(p *core.Prog, r *core.Report) {
 		// ... whenever the module output is a store output: the only condition on the re-marshal is the nil test of the store
 		// deltas getter (a replay that yields zero deltas must hand downstream an empty delta list, not the operation log)
 		okGuard := false
-		core.Instrs(fn, func(x ssa.Instruction) {
+		core.InstrsDeep(fn, func(x ssa.Instruction) {
 			c, ok := x.(*ssa.Call)
 			if !ok {
 				return
